@@ -56,8 +56,14 @@ def replay_chunk(ctx, texts):
         br = impl.Broker(ex, cash, deposit=float(sign), fees=impl.BrokerFees(markup=float(m), interest_rate=rate))
         ops = list(s["hist"])
         bad = None
+        # every third behaviour: the same instants as time-zone aware stamps whose UTC offset changes from call to call
+        # (elapsed time is a difference of instants, not of wall-clock readings)
+        aware = out["n"] % 3 == 2
         for i, op in enumerate(ops):
             t = BASE + timedelta(seconds=op["t"])
+            if aware:
+                from datetime import timezone
+                t = t.replace(tzinfo=timezone.utc).astimezone(timezone(timedelta(hours=(0, 1, -1, 2)[(i + op["t"]) % 4])))
             bal_before = br.holdings_quantity[cash]
             if op["op"] == "rebalance":
                 reb = impl.Rebalancing(time=t)
@@ -134,6 +140,6 @@ def c06(tier, seed):
     broker_check.explore_and_replay(rep, m, props_broker.clauses_of("C06") | {"nlv"})
     # the environment: the reference rate is published once, at the first timestep (reset seeds the rate book with 0 first)
     from . import envfull_check
-    ms = [x for x in envfull_check.c07_models(tier) if x["name"] == "yearly-interest"]
+    ms = [x for x in envfull_check.c07_models(tier) if x["name"] in ("yearly-interest", "yearly-rate-path")]
     envfull_check.run_models(rep, ms, {"env_interest"})
     return rep.finish()
